@@ -24,6 +24,10 @@ pub fn noop_barrier<T: ?Sized>(_val: &T) {}
 /// Sound for the element types used by the library (u8, usize, ArrayVec<[u8; _]>, Option<&mut [u8]>):
 /// all-zero is their `Default` value.
 pub fn fast_default<T: Default, const N: usize>() -> [T; N] {
+    if N == 0 || core::mem::size_of::<T>() == 0 {
+        // zero-sized arrays (capacity 0 under a 1-level build): nothing to zero
+        return core::array::from_fn(|_| T::default());
+    }
     unsafe { core::mem::zeroed() }
 }
 
